@@ -13,6 +13,7 @@ termination checker), and `*_progress` bounds the number of calls.
 -/
 import Biogo.Proofs.FeatTotal
 import Biogo.Generated.FeatIO
+import Biogo.Proofs.TimeDate
 
 namespace Biogo.Properties.C03_feat
 open Biogo.BytesFeat
@@ -420,6 +421,39 @@ theorem source_guards_as_modelled :
     bed_mustAtoa = ["guard len(f) == 0"] ∧
     bed_Read = ["guard len(line) == 0"] := by
   decide
+
+/-! ## the `##date` line: `time.Parse("2006-1-02", ·)` modelled exactly
+
+The theorems above hold for every `parseDate : Bytes → Bool`.  `Biogo.Go.TimeDate.parseAstronomical`
+is the exact model of `time.Parse(gff.Astronomical, s)` as to success and the date returned
+(transcribed from time/format.go: four digits, `-`, one or two digits greedily, `-`, exactly
+two digits, nothing after; month 1..12; day 1..`daysIn`); the drivers of C02–C04 run the GFF
+model with it, and op `dt` compares it with the real parser on date-like strings. -/
+
+open Biogo.Go.TimeDate in
+/-- **`##date` round trip**: what `Time.Format("2006-1-02")` writes for any date of the years
+    0..9999 (`WriteMetaData(time.Time)`) is accepted by `time.Parse("2006-1-02", ·)` as that date. -/
+theorem date_parse_format (year month day : Nat) (hy : year ≤ 9999) (hm1 : 1 ≤ month) (hm2 : month ≤ 12)
+    (hd1 : 1 ≤ day) (hd2 : day ≤ daysIn month year) :
+    parseAstronomical (formatAstronomical year month day) = some (year, month, day) :=
+  parse_format year month day hy hm1 hm2 hd1 hd2
+
+open Biogo.Go.TimeDate in
+/-- what the layout accepts and rejects: single-digit months, leap days, year 0000; no one-digit
+    day, no two-digit year, no month 0 or 13, no day 0 or beyond the month's end, no extra text -/
+theorem date_layout_examples :
+    [ofString "2020-1-02", ofString "1999-12-31", ofString "2000-2-29", ofString "2024-02-29", ofString "0000-1-01",
+     ofString "2020-10-10"].map parseAstronomical
+      = [some (2020, 1, 2), some (1999, 12, 31), some (2000, 2, 29), some (2024, 2, 29), some (0, 1, 1), some (2020, 10, 10)] ∧
+    [ofString "2023-2-29", ofString "1900-2-29", ofString "2020-13-01", ofString "2020-1-2", ofString "20-1-02",
+     ofString "2020-1-02 x", ofString "2020-0-10", ofString "2020-4-31", ofString "2020-1-00", ofString "2020-123-01",
+     ofString "x", ofString ""].map parseAstronomical = List.replicate 12 none := by
+  decide
+
+/-- with the exact date parser: a `##date` line with a valid date is skipped, one with an
+    impossible date is answered by the parser's error -/
+example : (Gff.readAll ⟨fun _ => none, fun _ => [], Biogo.Go.TimeDate.dateOK⟩
+      (ofString "##date 2024-2-29\n##date 2023-2-29\n")).1 = [.err .date 0, .eof] := by decide +kernel
 
 /-! ## non-vacuity and the four defect witnesses -/
 
